@@ -242,7 +242,12 @@ class Namer:
         for sk, g in ov.items(): ar.setdefault(len(params_of(g)), []).append(sk)
         n = len(params_of(f))
         if len(ar[n]) == 1: return '%s__%d' % (base, n)
-        return base + sig_key(f)
+        sk = sig_key(f)
+        # R1b: `T *` and `T (*)()` mangle alike (voidP); only when both overloads exist the function-pointer one is named ...FP
+        if '(*)' in f['type']['qualType']:
+            fp = lambda g: mangle_types([p.replace('(*)', ' FP ') for p in split_params(g['type']['qualType'])])
+            if any(sig_key(g) == sk and fp(g) != fp(f) for g in self.tu.funcs.get(qn, [])): return base + fp(f)
+        return base + sk
 
 # ----------------------------------------------------------------------------------------------
 class Emitter:
@@ -798,7 +803,33 @@ class Emitter:
         v = 'verif_new%d' % self.tmpn
         return '({ struct %s *%s = %s; %s; %s; })' % (cq, v, slot, self.construct_into(v, cq, c[0]), v)
 
-    def e_CXXDeleteExpr(self, n): raise Unsupported('delete has no rule')
+    def e_CXXDeleteExpr(self, n):
+        # R16b: delete p -> if (p) { T_dtor(p) (class with a non-trivial destructor; the dynamic type's destructor through
+        # T_dtor__virt when the destructor is virtual and the proof opted into VERIF_VIRTUAL_DISPATCH); VERIF_operator_delete(p) }
+        # delete[] p of scalars/pointers -> VERIF_operator_delete_array(p); delete[] of class objects has no rule
+        c = self.kids(n)[0]
+        pt = c['type']['qualType'].strip()
+        if not pt.endswith('*'): raise Unsupported('delete of non-pointer ' + pt)
+        elem = pt[:-1].strip()
+        cq = None if elem.endswith('*') else self.class_of({'qualType': elem})
+        self.tmpn += 1
+        v = 'verif_del%d' % self.tmpn
+        if n.get('isArray'):
+            if cq and self.has_dtor(cq): raise Unsupported('delete[] of class objects has no rule')
+            self.fire('R16b delete[] p -> VERIF_operator_delete_array'); self.calls.add('VERIF_operator_delete_array')
+            return '({ void *%s = (void *)(%s); if (%s) VERIF_operator_delete_array(%s); })' % (v, self.e(c), v, v)
+        self.fire('R16b delete p -> destructor + VERIF_operator_delete'); self.calls.add('VERIF_operator_delete')
+        d = ''
+        if cq and self.has_dtor(cq):
+            nm = self.dtor_name(cq)
+            virt = False
+            for f in self.tu.funcs.get(cq + '::~' + cq.split('__')[-1], []):
+                if f.get('virtual'): virt = True
+            if virt and '-DVERIF_VIRTUAL_DISPATCH' in getattr(self.tu, 'cmd', []):
+                self.calls.discard(nm); nm += '__virt'; self.calls.add(nm); self.fire('R3d virtual call -> proof-supplied dispatcher')
+            elif virt: self.fire('R3v virtual call -> static-type contract')
+            d = '%s((struct %s *)%s); ' % (nm, cq, v)
+        return '({ void *%s = (void *)(%s); if (%s) { %sVERIF_operator_delete(%s); } })' % (v, self.e(c), v, d, v)
     def e_CXXThrowExpr(self, n):
         self.fire('R13 throw -> VERIF_throw'); self.calls.add('VERIF_throw')
         c = self.kids(n)
@@ -836,7 +867,7 @@ def emit_function(tu, namer, prelude, f):
         txt0 = re.sub(r'\breturn;', 'return self;', txt0)
         txt = txt0
     else:
-        if f['kind'] == 'CXXDestructorDecl' and em.scope_dtors:
+        if f['kind'] == 'CXXDestructorDecl':      # member / base destructor calls are part of every destructor (R17), opt-in or not
             epi = dtor_epilogue(em, f)
             if epi:
                 if re.search(r'\breturn\b', tail): raise Unsupported('early return in a destructor with member destructors')
